@@ -140,8 +140,7 @@ Theorem queue_init_restore_eq (up : P) (un : var * nat) (flit : float -> P) (pus
   py_PcfgQueue_init up un flit push fuel rs (Some cfg) =
   q_restored push 50000%N (py_initalize_base_structures up rs)
              (fun it m mn => py_restore up un fuel rs it m mn 0)
-             (cfg_getfloat up cfg "guessing_info" "max_probability")
-             (cfg_getfloat up cfg "guessing_info" "min_probability").
+             (cfg_max up cfg) (cfg_min up cfg).
 Proof.
   unfold py_PcfgQueue_init, q_restored, for_each. cbv zeta.
   rewrite (for_from_fold _ 0 _ (fun s it => py_PcfgQueue_restore_base_item up un push fuel rs s it)); [|reflexivity].
@@ -176,6 +175,12 @@ Proof.
     subst; try discriminate; reflexivity.
 Qed.
 
+(* what update_save_config writes is what a constructor reads back *)
+Theorem queue_save_reads (q : pcfg_queue) (cfg : config) (d : P) :
+  cfg_max d (py_PcfgQueue_update_save_config q cfg) = max_probability q /\
+  cfg_min d (py_PcfgQueue_update_save_config q cfg) = min_probability q.
+Proof. unfold cfg_max, cfg_min. rewrite !queue_update_save_config_eq. apply q_saved_reads. Qed.
+
 End Eq.
 
 (* ------------------------------------------------------------------ *)
@@ -208,8 +213,8 @@ Proof. rewrite queue_init_new_eq. unfold q_start. now rewrite (kernel_init_eq_wf
 (* PcfgQueue(pcfg, save_config): min_probability below every ok probability (the
    model's walk has no min_prob), fuel for the deepest walk *)
 Theorem queue_init_restore_model (push : heap -> item -> heap) (fuel : nat) (cfg : config) :
-  let m := cfg_getfloat up cfg "guessing_info" "max_probability" in
-  let mn := cfg_getfloat up cfg "guessing_info" "min_probability" in
+  let m := cfg_max up cfg in
+  let mn := cfg_min up cfg in
   (forall p, okb p = true -> ple mn p = true) ->
   (forall it, In it (init_items rs) -> restore_fuel rs it <= fuel) ->
   py_PcfgQueue_init up un flit push fuel rs (Some cfg) = q_resume push 50000%N rs m mn.
@@ -354,8 +359,8 @@ Qed.
 (* C08: the object restored from a config *)
 Section Restored.
 Variable cfg : config.
-Let m := cfg_getfloat up cfg "guessing_info" "max_probability".
-Let mn := cfg_getfloat up cfg "guessing_info" "min_probability".
+Let m := cfg_max up cfg.
+Let mn := cfg_min up cfg.
 Hypothesis Hmn : forall p, okb p = true -> ple mn p = true.
 Hypothesis Hfuel : forall it, In it (init_items rs) -> restore_fuel rs it <= fuel.
 Hypothesis Hm : okb m = true.
@@ -431,9 +436,8 @@ Theorem queue_suffix_and_repeats (rs : ruleset) (push push' : heap -> item -> he
 Proof.
   intros Hwf Hpush Hpush' Hpop Hpop' Hzero Hfuel HU Hk cfg m B.
   (* what session 1 recorded when it was quit *)
-  assert (Hmax : cfg_getfloat up cfg "guessing_info" "max_probability" = m /\
-                 cfg_getfloat up cfg "guessing_info" "min_probability" = flit 0%float).
-  { unfold cfg.
+  assert (Hmax : cfg_max up cfg = m /\ cfg_min up cfg = flit 0%float).
+  { unfold cfg, cfg_max, cfg_min.
     rewrite (queue_update_save_config_eq _ cfg0 up "guessing_info" "max_probability"),
             (queue_update_save_config_eq _ cfg0 up "guessing_info" "min_probability").
     destruct (q_saved_reads up (snd (py_session push pop fuel rs None k)) cfg0) as [-> ->].
@@ -468,6 +472,29 @@ Proof. intros h x. apply Permutation_refl. Qed.
 Theorem queue_binary64_min_probability (p : ProbAlg.P F64) : okb p = true -> @ple F64 ((fun x : float => x) 0%float) p = true.
 Proof. exact (F64_zero_below_ok p). Qed.
 
+(* C08's sentence for binary64: the literal 0.0 of __init__ is below every ok double *)
+Theorem queue_suffix_and_repeats_F64 (up : ProbAlg.P F64) (un : var * nat) (ui : Next.item F64)
+        (rs : Next.ruleset F64) (push push' : heap F64 -> Next.item F64 -> heap F64)
+        (pop pop' : heap F64 -> option (Next.item F64 * heap F64)) (fuel fuel' : nat) (cfg0 : config F64) k U1 x U2 :
+  wf rs -> push_ok push -> push_ok push' -> pop_ok_okb pop -> pop_ok_okb pop' ->
+  (forall it, In it (init_items rs) -> restore_fuel rs it <= fuel') ->
+  rev (fst (@py_session F64 up un ui (fun f => f) push pop fuel rs None (total rs))) = U1 ++ x :: U2 ->
+  fst (@py_session F64 up un ui (fun f => f) push pop fuel rs None k) = x :: rev U1 ->
+  let cfg := py_PcfgQueue_update_save_config (snd (@py_session F64 up un ui (fun f => f) push pop fuel rs None k)) cfg0 in
+  let m := iprob x in
+  let B := fst (@py_session F64 up un ui (fun f => f) push' pop' fuel' rs (Some cfg)
+                            (length (filter (below m) (all_preterminals rs)))) in
+  (forall y, In y (x :: U2) -> In y B) /\
+  (forall y, In y B -> ple (iprob y) m = true) /\
+  NoDup B /\
+  (forall y, In y B -> In y U1 -> peq (iprob y) m = true) /\
+  nonincreasing (rev B).
+Proof.
+  intros Hwf Hpush Hpush' Hpop Hpop' Hfuel.
+  exact (@queue_suffix_and_repeats F64 up un ui (fun f => f) rs push push' pop pop' fuel fuel' cfg0 k U1 x U2
+           Hwf Hpush Hpush' Hpop Hpop' queue_binary64_min_probability Hfuel).
+Qed.
+
 Definition demo_junk : Next.item F64 := @Build_item F64 9 [] nan nan.
 Definition demo_session (save : option (config F64)) (n : nat) :=
   @py_session F64 nan (7, 7) demo_junk (fun x => x) list_push pop_first_max 20 demo_rs save n.
@@ -479,7 +506,7 @@ Example queue_hypotheses_satisfiable :
   (* quit after 7 pops, save, restore, run: 41 come (the 37 not yet returned, the one returned last and 3 tied with it) *)
   (let cfg := py_PcfgQueue_update_save_config (snd (demo_session None 7)) [] in
    length (fst (demo_session (Some cfg) 60)) = 41 /\
-   @okb F64 (@cfg_getfloat F64 nan cfg "guessing_info" "max_probability") = true).
+   @okb F64 (@cfg_max F64 nan cfg) = true).
 Proof.
   split; [exact demo_wf|]. split; [exact list_push_ok|]. split; [exact pop_first_max_ok_partial|].
   split.
